@@ -858,6 +858,16 @@ def make_enum_model(cls):
     return model
 
 
+def m_divmod(interp, fr, a, b):
+    import ast
+    if not isinstance(a, Sym) and not isinstance(b, Sym):
+        try:
+            return divmod(a, b)
+        except Exception as ex:
+            raise PyRaise(type(ex))
+    return (interp.binop(ast.FloorDiv(), a, b), interp.binop(ast.Mod(), a, b))
+
+
 def base_models():
     import builtins
     import contextlib as _ctx
@@ -877,5 +887,7 @@ def base_models():
         round: m_round,
         uuid.UUID: m_uuid,
         datetime.timedelta: m_timedelta,
+        divmod: m_divmod,
+        datetime.timezone.utc.utcoffset: lambda interp, fr, *a: datetime.timedelta(0),
     }
     return m
